@@ -51,7 +51,16 @@ Definition set_pos (v : value) (p : N) : value :=
 
 (* value_type codes, assigned at static-initialisation time in the C++;
    observed on the implementation and passed in *)
-Record tcodes := mktc { tc_cst : N; tc_str : N; tc_seq : N; tc_clo : N }.
+(* tc_other: the names of the other registered value types (the base type
+   T_???, the Dwarf types), as the running implementation reports them; only
+   rendering looks at it *)
+Record tcodes := mktc { tc_cst : N; tc_str : N; tc_seq : N; tc_clo : N; tc_other : list (N * bytes) }.
+
+Fixpoint other_name (l : list (N * bytes)) (n : N) : option bytes :=
+  match l with
+  | [] => None
+  | (k, s) :: r => if N.eqb k n then Some s else other_name r n
+  end.
 
 Definition tcode (tc : tcodes) (v : value) : N :=
   match v with
@@ -71,8 +80,11 @@ Definition slot_name (tc : tcodes) (z : Z) : bytes :=
   else if N.eqb n (tc_str tc) then [84; 95; 83; 84; 82]%N                (* T_STR *)
   else if N.eqb n (tc_seq tc) then [84; 95; 83; 69; 81]%N                (* T_SEQ *)
   else if N.eqb n (tc_clo tc) then [84; 95; 67; 76; 79; 83; 85; 82; 69]%N (* T_CLOSURE *)
-  else (* "T_??? (" ++ decimal ++ ")" *)
-       [84; 95; 63; 63; 63; 32; 40]%N ++ show_dec z ++ [41]%N.
+  else match (if (z <? 0)%Z then None else other_name (tc_other tc) n) with
+       | Some s => s
+       | None => (* "T_??? (" ++ decimal ++ ")" *)
+                 [84; 95; 63; 63; 63; 32; 40]%N ++ show_dec z ++ [41]%N
+       end.
 
 (* constant_dom::show (brevity::full) *)
 Definition show_cst (tc : tcodes) (z : Z) (d : cdom) : bytes :=
